@@ -78,6 +78,9 @@ def apply(fault, msg, ctx):
             ext = b"\xff" * (n or 1)
         elif w == "rand":
             ext = _rand_bytes(fault.get("seed", 0), n or 1)
+        elif w == "framing":
+            # what a line- or record-oriented transport / a text editor / a C string leaves behind
+            ext = FRAMING_TAILS[fault.get("tail", 0) % len(FRAMING_TAILS)]
         elif w == "dup":
             ext = body
         elif w == "dst_body":
@@ -241,6 +244,10 @@ def _noncanon(fault, side, body, g):
         return None
 
 
+FRAMING_TAILS = [b"\n", b"\r\n", b"\r", b" ", b"\t", b"\x00", b"\n\n", b"=", b"==", b";", b",", b'"', b"\x1a", b"\x04",
+                 b"\r\n\r\n", b"\x0a\x00"]
+
+
 def gen_fault(rng, nnodes=2, elem_size=32):
     """draw one symbolic network fault"""
     kind = rng.choice(NETWORK_KINDS)
@@ -250,7 +257,8 @@ def gen_fault(rng, nnodes=2, elem_size=32):
     elif kind == "truncate":
         f["n"] = rng.choice([0, 1, 2, rng.randrange(elem_size + 1), elem_size, elem_size - 1, 5, 6])
     elif kind == "extend":
-        f["with"] = rng.choice(["zero", "ff", "rand", "dup", "dst_body", "node"])
+        f["with"] = rng.choice(["zero", "ff", "rand", "dup", "dst_body", "node", "framing"])
+        f["tail"] = rng.randrange(len(FRAMING_TAILS))
         f["n"] = rng.choice([0, 0, 1, 2, elem_size, rng.randrange(1, 2 * elem_size)])
         f["seed"] = rng.randrange(1 << 16)
         f["k"] = rng.randrange(nnodes)
